@@ -14,6 +14,7 @@ from common import Failure, cZ, cN, cnat, cbool, clist, copt, capp
 import impl
 import c13b
 
+TRUSTED_EXTRA = ['harness/py2coq.py (Python->Gallina translator for the small pure functions named in DESIGN 12.8) and coq/Lib/PyVal.v: trusted by the SrcTie theorems only']
 EXPLANATION = ('Theorems over the Gallina model of matcher_interval/combinations/intervals/model_construction '
                '(Props/C13.v) + differential correspondence of that model with the running code.')
 ASSUMPTIONS = ['contents matchers are matchers of unknown class; their truth per line is an oracle computed with Python re',
